@@ -10,7 +10,7 @@
    explored by the implementation-level check (no duplicate start observed), not proved. *)
 From stdpp Require Import gmap list.
 From Coq Require Import ZArith.
-From KT Require Import Lifecycle LInv LSync Space Discover Rand RandDedup RandRun RandReload.
+From KT Require Import Lifecycle LInv LSync Space Discover Cover Rand RandDedup RandRun RandReload EnsureIdem.
 
 Theorem C06_sample_is_fresh : ∀ samp draw mc fuel sp tried seed col v seed',
   random_values samp draw mc fuel sp tried seed col = (Some v, seed') → v ∉ tried.
@@ -35,6 +35,12 @@ Theorem C06_distinct_run_reload : ∀ samp draw allow tune mc c, abort_early c =
   Forall (λ rs, Distinct rs.2) (rrun samp draw allow tune mc c s ops).
 Proof. exact distinct_run_reload. Qed.
 
+(* the hypothesis sample_complete of C06_step / C06_distinct_run (a second ensure_active_values leaves the sampled values alone)
+   holds whenever the oracle's space has parents before children and distinct names *)
+Theorem C06_sample_complete_of_wo : ∀ samp draw mc (s : @ostate rstate tdata unit),
+  wo [] (s_space (a_osp (algo s))) → sample_complete samp draw mc s.
+Proof. exact sample_complete_of_wo. Qed.
+
 Theorem C06_bounded_effort : ∀ samp draw mc fuel sp tried seed col r seed',
   random_values samp draw mc fuel sp tried seed col = (r, seed') →
   (seed ≤ seed' ≤ seed + Z.of_nat fuel * Z.of_nat (length sp))%Z.
@@ -44,4 +50,5 @@ Print Assumptions C06_sample_is_fresh.
 Print Assumptions C06_step.
 Print Assumptions C06_distinct_run.
 Print Assumptions C06_distinct_run_reload.
+Print Assumptions C06_sample_complete_of_wo.
 Print Assumptions C06_bounded_effort.
